@@ -1,10 +1,103 @@
 import UPVerif.Drv.C18
-/-! line-protocol handler for C21: the `read` case of `Drv/C18.lean` (the reference reader on two trees) -/
+import UPVerif.Core.FromPddl
+import UPVerif.Lemmas.FromPddlWhole
+/-!
+Line-protocol handler for C21.
+
+```
+(read <domain-tree> <problem-tree>)
+   -> (model <up> <ai> <ast>)
+      up  ::= (ok <problem>) | error            -- the reference reader `pddlRead` (first reader)
+      ai  ::= (ok <problem>) | error            -- `fromPddl ∘ astOf` (second reader: external parser + converter)
+      ast ::= (ok <domain> <problem>) | none    -- `astOf` alone, dumped for the comparison with the real `pddl` objects
+(frag <domain-tree> <problem-tree>)
+   -> (frag both costs|nocosts ok|no) | (frag not-both)
+      -- is the pair of files accepted by both models, free of a `total-cost` function, and inside `filesOKb`
+      -- (the decidable side conditions of `C21_readers_equivalent_partial`)?  Used to MEASURE the theorem's coverage.
+term   ::= (c name) | (v name)
+tvar   ::= (name tag*)
+form   ::= (num q) | (op K form*) | (not form) | (pred name term*) | (fn name term*) | (eqt term term)
+         | (forall (tvar*) form) | (exists (tvar*) form) | (when form form) | (forall-eff (tvar*) form)
+domain ::= (domain name (reqs r*) (types (n f|_)*) (constants (n t|_)*) (predicates (name tvar*)*)
+                   (functions (name tvar*)*) (actions (action name (tvar*) form|_ form|_)*))
+problem::= (problem name domain-name (reqs r*)|_ (objects (n t|_)*) (init form*) form (metric opt form)|_)
+```
+-/
 namespace UPVerif.Drv.C21
-open UPVerif
+open UPVerif UPVerif.FromPddl
+
+def termToSexp : Term → Sexp
+  | .const n => .list [.atom "c", .atom n]
+  | .var n => .list [.atom "v", .atom n]
+
+def tvarToSexp (v : TVar) : Sexp := .list (.atom v.name :: v.tags.map .atom)
+
+def opName : OpK → String
+  | .and => "and" | .or => "or" | .imply => "imply" | .oneof => "oneof"
+  | .eqF => "eq" | .lt => "lt" | .le => "le" | .gt => "gt" | .ge => "ge"
+  | .minus => "minus" | .plus => "plus" | .times => "times" | .divide => "divide"
+  | .assign => "assign" | .increase => "increase" | .decrease => "decrease" | .scaleUp => "scale-up" | .scaleDown => "scale-down"
+
+partial def formToSexp : Form → Sexp
+  | .num q => .list [.atom "num", .atom (ratToString q)]
+  | .op k args => .list (.atom "op" :: .atom (opName k) :: args.map formToSexp)
+  | .not f => .list [.atom "not", formToSexp f]
+  | .pred n ts => .list (.atom "pred" :: .atom n :: ts.map termToSexp)
+  | .fn n ts => .list (.atom "fn" :: .atom n :: ts.map termToSexp)
+  | .eqT l r => .list [.atom "eqt", termToSexp l, termToSexp r]
+  | .quant q vs b => .list [.atom (match q with | .ex => "exists" | .all => "forall"), .list (vs.map tvarToSexp), formToSexp b]
+  | .when c e => .list [.atom "when", formToSexp c, formToSexp e]
+  | .forallE vs e => .list [.atom "forall-eff", .list (vs.map tvarToSexp), formToSexp e]
+
+def optAtom : Option String → Sexp
+  | some s => .atom s
+  | none => .atom "_"
+
+def namesToSexp (l : List (String × Option String)) : List Sexp := l.map (fun p => .list [.atom p.1, optAtom p.2])
+
+def optForm : Option Form → Sexp
+  | some f => formToSexp f
+  | none => .atom "_"
+
+def domainToSexp (d : PDomain) : Sexp :=
+  .list [.atom "domain", .atom d.name, .list (.atom "reqs" :: d.reqs.map .atom),
+    .list (.atom "types" :: namesToSexp d.types), .list (.atom "constants" :: namesToSexp d.constants),
+    .list (.atom "predicates" :: d.predicates.map (fun p => .list (.atom p.1 :: p.2.map tvarToSexp))),
+    .list (.atom "functions" :: d.functions.map (fun p => .list (.atom p.1 :: p.2.map tvarToSexp))),
+    .list (.atom "actions" :: d.actions.map (fun a =>
+      .list [.atom "action", .atom a.name, .list (a.params.map tvarToSexp), optForm a.pre, optForm a.eff]))]
+
+def problemToSexp (p : PProblem) : Sexp :=
+  .list [.atom "problem", .atom p.name, .atom p.domainName,
+    (match p.reqs with
+     | some rs => .list (.atom "reqs" :: rs.map .atom)
+     | none => .atom "_"),
+    .list (.atom "objects" :: namesToSexp p.objects), .list (.atom "init" :: p.init.map formToSexp), formToSexp p.goal,
+    (match p.metric with
+     | some (opt, e) => .list [.atom "metric", .atom opt, formToSexp e]
+     | none => .atom "_")]
 
 def handle : Sexp → Sexp
-  | .list [.atom "read", d, q] => Drv.C18.handle (.list [.atom "read", d, q])
+  | .list [.atom "read", d, q] =>
+    let up := match Pddl.pddlRead d q with
+      | some P => .list [.atom "ok", Drv.C18.problemToSexp P]
+      | none => .atom "error"
+    let ai := match aiRead d q with
+      | some P => .list [.atom "ok", Drv.C18.problemToSexp P]
+      | none => .atom "error"
+    let ast := match astOf d q with
+      | some A => .list [.atom "ok", domainToSexp A.dom, problemToSexp A.prob]
+      | none => .atom "none"
+    .list [.atom "model", up, ai, ast]
+  | .list [.atom "frag", d, q] =>
+    match Pddl.pddlRead d q, astOf d q with
+    | some P, some A =>
+      match fromPddl A, Pddl.splitDomain (Pddl.lowerSexp d), Pddl.splitProblem (Pddl.lowerSexp q) with
+      | some _, some D, some Q =>
+        .list [.atom "frag", .atom "both", .atom (if noTotalCost D.functions then "nocosts" else "costs"),
+               .atom (if filesOKb (P.fluents.map (·.ref)) (ctxOf A) D Q then "ok" else "no")]
+      | _, _, _ => .list [.atom "frag", .atom "not-both"]
+    | _, _ => .list [.atom "frag", .atom "not-both"]
   | _ => .atom "bad-case"
 
 end UPVerif.Drv.C21
